@@ -67,6 +67,7 @@ struct SimAlloc {
 	uint64_t fired = 0;      // faults fired in the current window
 	uint64_t total_fired = 0;
 	uint64_t total_reqs = 0;
+	uint64_t foreign_frees = 0; // the installed free function was handed a pointer the installed malloc never returned
 	// parse tracking
 	int in_parse = 0;
 	uint64_t parse_reqs = 0;
